@@ -15,6 +15,7 @@ def errName : Err → String
   | .emptyData => "emptyData"
   | .noGroup => "noGroup"
   | .fuel => "fuel"
+  | .duplicate => "duplicate"
 
 def jRes {α} (f : α → Json) : Except Err α → Json
   | .ok a => jObj [("ok", f a)]
@@ -23,7 +24,8 @@ def jRes {α} (f : α → Json) : Except Err α → Json
 def fwOf (s : String) : Fw := if s == "pd" then .pandas else if s == "py" then .pythonDict else .pyarrow
 
 def group (j : Json) : GroupSpec :=
-  { supported := nms (fld j "supported"),
+  { criteria := nms (fld j "criteria"),
+    supported := nms (fld j "supported"),
     parents := (arrF j "parents").map (fun p => match asArr p with
       | [a, b] => (nm a, nms b)
       | _ => ([], [])),
@@ -42,16 +44,16 @@ def withOrder (j : Json) (k : ColOrder → Json) : Json :=
 
 def handle (op : String) (j : Json) : Json :=
   match op with
-  | "identify" => withOrder j fun o => jRes jNms (identify (nms (fld j "req")) (nms (fld j "cols")) o)
-  | "select" => withOrder j fun o => jRes jNms (selectCols (fwOf (strF j "fw")) (nms (fld j "req")) (nms (fld j "cols")) o)
-  | "selectDict" => withOrder j fun o =>
-      jRes (fun rows => jArr (rows.map jNms)) (selectDictRows ((arrF j "rows").map nms) (nms (fld j "req")) o)
+  | "identify" => jRes jNms (identifyRaw (nms (fld j "req")) (nms (fld j "cols")) (optStr (fld j "order")))
+  | "select" => jRes jNms (selectColsRaw (fwOf (strF j "fw")) (nms (fld j "req")) (nms (fld j "cols")) (optStr (fld j "order")))
+  | "selectDict" =>
+      jRes (fun rows => jArr (rows.map jNms)) (selectDictRowsRaw ((arrF j "rows").map nms) (nms (fld j "req")) (optStr (fld j "order")))
   | "setFeatureName" => jNm (setFeatureName (nms (fld j "supported")) (nm (fld j "name")))
   | "baseName" => jNm (baseName (nm (fld j "name")))
   | "sort" => jNms (sortNames (nms (fld j "names")))
-  | "flags" =>
+  | "flags" => withOrder j fun _ =>   -- the `column_ordering` guard of `mlodaAPI.__init__` comes first
     let w := world j
-    match processRequest w (natF j "fuel") (nms (fld j "request")) with
+    match prepareRequest w (natF j "fuel") (nms (fld j "request")) with
     | .error e => jObj [("err", errName e)]
     | .ok coll => jObj [("ok", jArr (coll.map jEntry)),
                         ("flagged", jArr ((List.range w.groups.length).map (fun g => jNms (flaggedOf coll g))))]
